@@ -1,4 +1,5 @@
 (* table.ml — property id -> (model evaluator, property checker), both extracted *)
 let table : (string * ((Model.z list -> Model.z list) * (Model.z list -> Model.z list -> bool))) list = [
   ("C14", (Model.run_c14, Model.chk_c14));
+  ("C19", (Model.run_c19, Model.chk_c19));
 ]
